@@ -152,7 +152,13 @@ func (m *Machine) builtin(name string, args []Value, ats []types.Type, g *Term, 
 		case *ArrayV:
 			return ConstI(64, int64(len(v.E)))
 		case *ChanV:
-			panic(notEncoded("len(chan)"))
+			n := Const(64, 0)
+			for _, a := range v.Alts {
+				for _, it := range a.Obj.val.(*ChanContent).Queue {
+					n = Add(n, Ite(And(a.G, it.G), Const(64, 1), Const(64, 0)))
+				}
+			}
+			return n
 		}
 	case "cap":
 		switch v := args[0].(type) {
